@@ -1284,7 +1284,9 @@ def qft(dimensions: SpaceLike, *, dtype: LayerType = None) -> Qobj:
     arr = np.arange(N2)
     L, M = np.meshgrid(arr, arr)
     data = np.exp(phase * (L * M)) / np.sqrt(N2)
-    return Qobj(data, isherm=False, isunitary=True, dims=dims).to(dtype)
+    # The 1x1 and 2x2 (Hadamard) transforms are real symmetric; from N = 3 on
+    # the diagonal holds non-real roots of unity.
+    return Qobj(data, isherm=(N2 <= 2), isunitary=True, dims=dims).to(dtype)
 
 
 def swap(N: int, M: int, *, dtype: LayerType = None) -> Qobj:
